@@ -194,12 +194,14 @@ def run(ctx):
         k, b = export_flag_oracle(r)
         nflag += k
         fbad += ["%s: %s" % (os.path.relpath(m, common.VERIF), x) for x in b]
-    ctx.obligation("oracle on the real tool: the Exported flag of each of %d sites in published facts == go/types' Exported() of the object declared there" % nflag, nflag > 0 and not fbad)
+    ctx.obligation("oracle on the real tool: the Exported flag of each of %d sites in published facts == external visibility by go/types (Exported(), or a package-level type name) of the object declared there" % nflag, nflag > 0 and not fbad)
     for b in mbad[:2]:
         ctx.violation("visible", "C06 fails on the real tool (a verdict or path on an externally visible site does not reach the importer): %s\nreplay: bin/harness analyze -dir corpus/c06\n" % b)
     if not mbad:
         for b in fbad[:2]:
             ctx.violation("exported-flag", "C06: a site of an exported symbol is not treated as externally visible: %s\n" % b, found_input=False)
+    from . import markers as _mk
+    _mk.corpus_modules(ctx, "c06r", "externally visible sites of repaired findings")
     panics = [i for i, l in enumerate(res["impl"]) if "F!" in l or "PANIC" in l]
     ctx.obligation("Export never panics on the real engine (theorem C06_export_total)", not panics)
 
